@@ -468,6 +468,10 @@ impl TreeSink for RcDom {
     }
 
     fn append_before_sibling(&self, sibling: &Handle, child: NodeOrText<Handle>) {
+        // Detach first: the index of `sibling` must be taken after the removal.
+        if let NodeOrText::AppendNode(node) = &child {
+            remove_from_parent(node);
+        }
         let (parent, i) = get_parent_and_index(sibling)
             .expect("append_before_sibling called on node without parent");
 
